@@ -78,6 +78,14 @@ def run(ctx):
     from ..rules import datescan as DS
     n_date = DS.obligations(ctx, u, "R11.8")
     ctx.require(n_date >= 60, "R11.8: only %d date probes evaluated" % n_date)
+    ctx.rule("R11.9", "PREV-SLOT: in both list printers the value handed to rtosc_print_arg_val as the one before a range is the slot directly in front of the current position of the original list (NULL for the first) - the loop's own bookkeeping is evaluated with arguments that span 1..4 slots and with printer-made ranges")
+    from ..rules import prevslot as PSL
+    sites_ = PSL.list_sites(u)
+    ctx.require(len(sites_) >= 2, "R11.9: the two list printers were not found (%d)" % len(sites_))
+    for q_, fn_, lp_, c_ in sites_:
+        bad_ = PSL.run_site(u, fn_, lp_)
+        ctx.ob("R11.9", "%s: value before a range" % q_, not bad_, site=A.where(c_), detail={"scenarios": len(PSL.SCENARIOS), "mismatches": bad_[:3]},
+               what="%s hands rtosc_print_arg_val a value that is not the slot in front of the current argument: %s" % (q_, bad_[:2]))
     chk = u.function("rtosc_skip_next_printed_arg")
     scn = u.function("rtosc_scan_arg_val")
     swc, sws = R.top_switch(u, chk), R.top_switch(u, scn)
